@@ -54,7 +54,7 @@ PROBES = [
     "older-root-used",
     "asked-first-on-incomplete-store",
 ]
-FAULTS = ["msg-drop", "msg-dup", "msg-reorder", "msg-alter", "msg-truncate", "msg-substitute", "msg-stale-root", "withhold-node"]
+FAULTS = ["msg-drop", "msg-dup", "msg-reorder", "msg-alter", "msg-truncate", "msg-substitute", "msg-stale-root", "msg-other-key", "withhold-node"]
 COMPONENTS = {
     "real": ["trie.branches.get_branch / if_branch_valid / check_if_branch_exist / get_trie_nodes / get_witness_for_key_prefix", "trie.binary.BinaryTrie"],
     "stub": ["SimDB mapping", "prover / channel / verifier actors"],
@@ -170,6 +170,15 @@ class World(C12World):
                 st.fault("msg-stale-root")
                 for v in [truth, truth2, None]:
                     self.verify(branch, root2, key, v, truth2, ["msg-stale-root"])
+        if cmd.get("xkey") and truth is not None:
+            # the genuine branch of this key, and this key's value, are presented for a
+            # neighbouring key: a longer one, a shorter one, one differing in the last bit
+            contents = self.registry[root]
+            b = int(cmd["xkey"]) % 256
+            for other in (key + bytes([b]), key + b"\x00", key[:-1], key[:-1] + bytes([key[-1] ^ 1]), key[:-1] + bytes([key[-1] ^ 0x80])):
+                if other and other != key:
+                    st.fault("msg-other-key")
+                    self.verify(branch, root, other, truth, contents.get(other), ["msg-other-key"])
         return f"branch:{len(branch)}"
 
     def apply_fault(self, f, nodes, key, root):
@@ -401,6 +410,8 @@ def generate(rng):
                 c["claim_root"] = rng.randrange(1000)
             if rng.random() < 0.3:
                 c["vroot"] = rng.randrange(1000)
+            if rng.random() < 0.4:
+                c["xkey"] = 1 + rng.randrange(255)
         elif kind < 0.75:
             c = {"op": "exists_prefix", "k": hx(k[: rng.randint(1, len(k))] if rng.random() < 0.6 else k + bytes([rng.randrange(256)]))}
         elif kind < 0.82:
